@@ -146,8 +146,10 @@ def load_known():
 
 def triage(pid, violations):
     """violations: list of dicts with 'signature' and 'replay' (path) and optional 'detail'.
-    Prints KNOWN-FINDING / VIOLATION lines. Returns number of unlisted violations."""
-    known = [k for k in load_known() if k.get("property") == pid and k.get("status") == "known"]
+    A violation whose signature matches a listed known finding (of any property: all oracles stay armed in every run, so a
+    check can meet a finding that belongs to another property) prints a KNOWN-FINDING line naming the finding's own property.
+    Everything else prints VIOLATION for the running check. Returns the number of unlisted violations."""
+    known = [k for k in load_known() if k.get("status") == "known"]
     unlisted = 0
     printed = set()
     for v in violations:
@@ -160,7 +162,7 @@ def triage(pid, violations):
         if hit:
             if hit["id"] not in printed:
                 printed.add(hit["id"])
-                print(f"KNOWN-FINDING: property={pid} {hit['what']} [{hit['id']}] e.g. {sig[:160]}")
+                print(f"KNOWN-FINDING: property={hit['property']} {hit['what']} [{hit['id']}] e.g. {sig[:200]} replay={v.get('replay', '-')}")
         else:
             unlisted += 1
             print(f"VIOLATION property={pid} replay={v.get('replay', '-')}")
